@@ -19,27 +19,20 @@ from harness.common import corpus_cases, lean_int, lean_str, wl
 PID = 'C17'
 MODULES = ['NoteSeqVerif.Props.C17']
 EXE = 'drv_c17'
-THEOREMS = [
+THEOREMS = ['NSV.C17.' + t for t in (
     # python list primitives
-    'NSV.C17.sliceLo_le', 'NSV.C17.sliceLo_spec', 'NSV.C17.pySlice_getElem', 'NSV.C17.pyIndex_spec',
-    'NSV.C17.pyRange_spec',
+    'py_slice_start py_slice_elements py_index py_range '
     # simple family (SimpleEventSequence, Melody, DrumTrack, ChordProgression)
-    'NSV.C17.inv_init', 'NSV.C17.inv_fromEventList', 'NSV.C17.inv_step', 'NSV.C17.inv_reachable',
-    'NSV.C17.obs_consistent', 'NSV.C17.set_length_exact', 'NSV.C17.set_length_keeps_right',
-    'NSV.C17.set_length_keeps_left', 'NSV.C17.melody_sustain_iff', 'NSV.C17.melody_set_length_first_new',
-    'NSV.C17.slice_offset', 'NSV.C17.slice_elements', 'NSV.C17.incRes_scales', 'NSV.C17.step_frame',
-    'NSV.C17.melody_lawful', 'NSV.C17.drum_lawful', 'NSV.C17.simple_lawful', 'NSV.C17.melody_events_in_range',
-    'NSV.C17.refines_abstract',
+    'class_records_lawful inv_init inv_from_event_list inv_step inv_reachable observations_consistent '
+    'melody_in_range set_length_exact set_length_keeps melody_sustain_iff melody_set_length_first_new '
+    'slice_offset slice_elements clean_pointwise inc_res_scales step_frame refines_abstract '
     # lead sheet
-    'NSV.C17.lead_inv_init', 'NSV.C17.lead_inv_step', 'NSV.C17.lead_inv_reachable', 'NSV.C17.lead_obs_consistent',
-    'NSV.C17.lead_slice_ok',
+    'lead_inv_init lead_inv_step lead_inv_reachable lead_observations_consistent lead_slice_ok lead_set_length_exact '
     # pianoroll
-    'NSV.C17.roll_inv_step', 'NSV.C17.roll_set_length_exact', 'NSV.C17.roll_obs_consistent',
+    'roll_step roll_set_length_exact roll_observations_consistent '
     # performance
-    'NSV.C17.perf_append_steps', 'NSV.C17.perf_trim_steps', 'NSV.C17.perf_append_trim',
-    'NSV.C17.perf_set_length_exact', 'NSV.C17.perf_set_length_keeps', 'NSV.C17.perf_inv_step',
-    'NSV.C17.perf_inv_reachable', 'NSV.C17.perf_obs_consistent',
-]
+    'perf_append_steps perf_trim_steps perf_append_trim perf_set_length_exact perf_inv_step '
+    'perf_inv_reachable perf_observations_consistent').split()]
 
 SIMPLE = ('simple', 'melody', 'drum', 'chord')
 KINDS = SIMPLE + ('lead', 'roll', 'perf')
@@ -645,7 +638,8 @@ def transition_failures(kind, op, b, a, obj_b, obj_a, pad):
                         and a.it[-1].event_value < b.it[a.n - 1].event_value):
                     return 'last retained event changed into something other than a shorter time shift'
         elif t == 'tr':
-            if a.it != b.it[:op[1]] or a.start != b.start:
+            # truncate(n), n >= 0: exactly the first n events; for a negative n only "a prefix is kept" is demanded
+            if a.start != b.start or a.it != b.it[:a.n] or (op[1] >= 0 and a.n != min(op[1], b.n)):
                 return 'truncate did not keep exactly the first events'
         elif t == 'dc':
             if obj_a is obj_b or a.text != b.text:
@@ -701,6 +695,17 @@ class Unobservable(Exception):
         self.status = status
 
 
+def from_implementation(e):
+    """True iff the innermost frame of the exception's traceback is code of the note_seq package (then it
+    is the implementation failing on a harness call, i.e. a property failure, not a harness bug)"""
+    tb = e.__traceback__
+    last = None
+    while tb is not None:
+        last = tb.tb_frame.f_code.co_filename
+        tb = tb.tb_next
+    return last is not None and '/note_seq/' in last.replace('\\', '/')
+
+
 def err_name(e):
     n = type(e).__name__
     return n
@@ -727,16 +732,16 @@ def real_init(kind, init):
 
 def run_history(kind, init, ops):
     """real side of one history.  returns (expected trace-mode response, first oracle failure or None,
-    number of ops executed, observations)"""
+    number of ops whose observation is in the response, number of ops a replay needs)"""
     obj, status, fail = real_init(kind, init)
     if obj is None:
-        return 'init ' + status, fail, 0
+        return 'init ' + status, fail, 0, 0
     pad = init.get('pad') if kind == 'simple' else None
     pad = pad_of(kind, pad) if kind in SIMPLE else None
     try:
         sn = observe(kind, obj)
     except Exception as e:  # pylint: disable=broad-except
-        return 'init ok', 'observing the fresh object raised %s: %s' % (type(e).__name__, e), 0
+        return 'init ok', 'observing the fresh object raised %s: %s' % (type(e).__name__, e), 0, 0
     fail = fail or state_failures(kind, sn)
     parts = ['init ok ' + sn.text]
     tainted = False
@@ -744,13 +749,13 @@ def run_history(kind, init, ops):
         try:
             obj, status, sn, f, tainted = real_step(kind, obj, op, sn, pad, tainted)
         except OracleHit as h:
-            return ' ; '.join(parts), fail or ('op %d %s: %s' % (k, json.dumps(op), h.what)), k
+            return ' ; '.join(parts), fail or ('op %d %s: %s' % (k, json.dumps(op), h.what)), k, k + 1
         except Unobservable:
-            return ' ; '.join(parts), fail, k
+            return ' ; '.join(parts), fail, k, k + 1
         if f and not fail:
             fail = 'op %d %s: %s' % (k, json.dumps(op), f)
         parts.append(status + ' ' + sn.text)
-    return ' ; '.join(parts), fail, len(ops)
+    return ' ; '.join(parts), fail, len(ops), len(ops)
 
 
 def history_line(mode, kind, init, ops):
@@ -777,12 +782,12 @@ def exhaustive_plan(kind):
     if kind == 'simple':
         return ([seq_init([1, 2, 3], 4, pad=0)],
                 [['a', 5], ['sl', 0, 0], ['sl', 2, 0], ['sl', 4, 0], ['sl', 0, 1], ['sl', 2, 1], ['sl', 5, 1]]
-                + SLICES + [['ir', 2, None], ['ir', 1, 9], ['dc']])
+                + SLICES + [['ir', 2, None], ['ir', 1, 9], ['dc'], ['ri', 2, 12, 3, [7, 8]], ['rs']])
     if kind == 'melody':
         return ([seq_init([NOTE_OFF, 60, NO_EVENT], 4)],
                 [['a', 62], ['a', NOTE_OFF], ['a', NO_EVENT], ['a', 128], ['sl', 0, 0], ['sl', 2, 0], ['sl', 5, 0],
                  ['sl', 0, 1], ['sl', 2, 1], ['sl', 4, 1], ['sc', 1, None], ['sc', -2, None], ['sc', None, -1],
-                 ['ir', 2, None], ['dc']])
+                 ['ir', 2, None], ['dc'], ['ri', 2, 12, 3, [NOTE_OFF, 64]]])
     if kind == 'drum':
         return ([seq_init([['f', [36]], ['f', []], ['f', [38, 42]]], 4)],
                 [['a', ['f', [36, 42]]], ['a', ['f', [128]]], ['a', ['x', [36]]], ['sl', 0, 0], ['sl', 2, 0], ['sl', 4, 0],
@@ -795,15 +800,16 @@ def exhaustive_plan(kind):
     if kind == 'lead':
         return ([lead_init([60, NO_EVENT, NOTE_OFF], ['C', 'C', 'Am'], 4)],
                 [['a', [62, 'G']], ['a', [NOTE_OFF, 'N.C.']], ['a', [200, 'C']], ['sl', 0], ['sl', 2], ['sl', 5],
-                 ['sc', 1, None], ['sc', -2, None], ['sc', None, -1], ['sc', 7, None], ['ir', 2], ['dc']])
+                 ['sc', 1, None], ['sc', -2, None], ['sc', None, -1], ['sc', 7, None], ['ir', 2], ['dc'], ['rs'],
+                 ['in', {'melody': seq_init([NOTE_OFF, 67], 2), 'chords': seq_init(['F', 'G'], 3)}]])
     if kind == 'roll':
         return ([{'start': 4, 'spq': 4, 'min_pitch': 21, 'max_pitch': 108, 'shift_range': False, 'events': [[0, 4], []]}],
                 [['a', 0, [3]], ['a', 1, [20, 60, 109]], ['a', 0, []], ['sl', 0, 0], ['sl', 1, 0], ['sl', 2, 0], ['sl', 3, 0],
                  ['sl', 5, 0], ['sl', 2, 1], ['dc']])
     if kind == 'perf':
         return ([{'start': 7, 'max_shift': 3}],
-                [['a', 1, 60], ['a', 3, 1], ['a', 3, 3], ['a', 3, -1], ['sl', 0, 0], ['sl', 2, 0], ['sl', 3, 0], ['sl', 4, 0],
-                 ['sl', 7, 0], ['as', 1], ['as', 5], ['ts', 1], ['ts', 4], ['tr', 1], ['tr', -1], ['dc']])
+                [['a', 1, 60], ['a', 3, 1], ['a', 3, 3], ['a', 3, -1], ['a', 3, 0], ['ab'], ['sl', 0, 0], ['sl', 2, 0], ['sl', 3, 0],
+                 ['sl', 4, 0], ['sl', 7, 0], ['as', 1], ['as', 5], ['ts', 1], ['ts', 4], ['tr', 1], ['tr', -1], ['dc']])
     raise ValueError(kind)
 
 
@@ -1027,7 +1033,7 @@ def note_branches(kind, op, status, before, after):
         size = before.x1 if kind == 'perf' else before.n
         rel = 'neg' if n < 0 else 'zero' if n == 0 else 'same' if n == size else 'grow' if n > size else 'shrink'
         h.append('%s:sl:%s:%s' % (kind, 'left' if left else 'right', rel))
-        if kind in ('melody', 'lead') and rel == 'grow' and not left:
+        if kind in ('melody', 'lead') and rel == 'grow' and not left and len(after.it) > before.n:
             h.append('%s:sl:grow:%s' % (kind, 'note-sounding' if after.it[before.n] in (NOTE_OFF, (NOTE_OFF, 'N.C.')) else 'silent'))
     if t == 'sc' and status == 'ok':
         i = op[1]
@@ -1055,7 +1061,14 @@ def exhaustive(chk, kind, depth):
             continue
         pad = pad_of(kind, init.get('pad')) if kind in SIMPLE else None
         head = 'F ' + wire_init(kind, init)
-        sn0 = observe(kind, root)
+        try:
+            sn0 = observe(kind, root)
+        except Exception as e:  # pylint: disable=broad-except
+            if not from_implementation(e):
+                raise
+            chk.fail('%s: observing the fresh object raised %s: %s' % (kind, type(e).__name__, e),
+                     {'class': kind, 'init': init, 'ops': []})
+            continue
         f0 = state_failures(kind, sn0)
         if f0:
             chk.fail('%s after construction: %s' % (kind, f0), {'class': kind, 'init': init, 'ops': []})
@@ -1110,16 +1123,24 @@ def exhaustive(chk, kind, depth):
 def lockstep_cases(chk, stream, cases):
     """cases: list of (kind, init, ops, label).  trace-mode lock-step comparison + oracle."""
     lines, expect, keep = [], [], []
+    shrunk = [0, 0]
     for (kind, init, ops, label) in cases:
         try:
-            exp, fail, done = run_history(kind, init, ops)
+            exp, fail, done, need = run_history(kind, init, ops)
         except Exception as e:  # pylint: disable=broad-except
-            chk.fail('%s: harness could not run the history on the real code: %s: %s' % (kind, type(e).__name__, e),
+            if not from_implementation(e):
+                raise
+            chk.fail('%s: the implementation raised %s: %s while the history was run' % (kind, type(e).__name__, e),
                      {'class': kind, 'init': init, 'ops': ops})
             continue
         ops_run = ops[:done]
         if fail:
-            chk.fail('%s: %s' % (kind, fail), {'class': kind, 'init': init, 'ops': ops_run, 'label': label})
+            bad = ops[:need]
+            if len(bad) > 6 and shrunk[0] < 3:
+                shrunk[0] += 1
+                bad = ddmin(bad, lambda o: oracle_fails(kind, init, o))
+                fail = run_history(kind, init, bad)[1] or fail
+            chk.fail('%s: %s' % (kind, fail), {'class': kind, 'init': init, 'ops': bad, 'label': label})
         lines.append(history_line('T', kind, init, ops_run))
         expect.append(exp)
         keep.append((kind, init, ops_run, label))
@@ -1134,8 +1155,50 @@ def lockstep_cases(chk, stream, cases):
         chk.stream(stream)['evaluations'] += max(len(ops) - 1, 0)
         if a != b:
             k = next((i for i, (x, y) in enumerate(zip(pa, pb)) if x != y), min(len(pa), len(pb)))
-            chk.disagree(stream, {'class': kind, 'init': init, 'ops': ops[:k], 'label': label, 'first_difference_after_op': k - 1},
+            bad = ops[:k]
+            if len(bad) > 6 and shrunk[1] < 3:
+                shrunk[1] += 1
+                bad = ddmin(bad, lambda o: differs(chk, kind, init, o))
+            chk.disagree(stream, {'class': kind, 'init': init, 'ops': bad, 'label': label,
+                                  'first_difference_after_op_of_unshrunk_history': k - 1},
                          pa[k] if k < len(pa) else '(end)', pb[k] if k < len(pb) else '(end)')
+
+
+def ddmin(ops, still_bad, budget=400):
+    """delta debugging on the operation list: smallest sub-history (found within `budget` trials) on which
+    `still_bad(ops)` holds"""
+    n = 2
+    while len(ops) >= 2 and budget > 0:
+        chunk = max(len(ops) // n, 1)
+        reduced = False
+        for i in range(0, len(ops), chunk):
+            cand = ops[:i] + ops[i + chunk:]
+            budget -= 1
+            if cand and still_bad(cand):
+                ops, n, reduced = cand, max(n - 1, 2), True
+                break
+            if budget <= 0:
+                break
+        if not reduced:
+            if chunk == 1:
+                break
+            n = min(n * 2, len(ops))
+    return ops
+
+
+def oracle_fails(kind, init, ops):
+    try:
+        return run_history(kind, init, ops)[1] is not None
+    except Exception as e:  # pylint: disable=broad-except
+        return from_implementation(e)
+
+
+def differs(chk, kind, init, ops):
+    try:
+        exp, _, done, _ = run_history(kind, init, ops)
+    except Exception:  # pylint: disable=broad-except
+        return False
+    return chk.driver(EXE, [history_line('T', kind, init, ops[:done])])[0] != exp
 
 
 KNOWN_HISTORIES = {
@@ -1179,7 +1242,7 @@ def run(chk):
     rng = chk.subrng('random')
     cases = []
     for kind in KINDS:
-        for i in range(chk.n(12, 150)):
+        for i in range(chk.n(40, 150)):
             init, ops = random_history(kind, rng, 200)
             cases.append((kind, init, ops, 'random'))
     lockstep_cases(chk, 'random-200', cases)
@@ -1187,21 +1250,27 @@ def run(chk):
     rng = chk.subrng('malformed')
     cases = []
     for kind in KINDS:
-        for i in range(chk.n(60, 1500)):
+        for i in range(chk.n(150, 1500)):
             init, ops = random_history(kind, rng, rng.randrange(1, 12), malformed=True)
             cases.append((kind, init, ops, 'malformed'))
     lockstep_cases(chk, 'malformed', cases)
     for c in cases[:2]:
         chk.sample({'class': c[0], 'init': c[1], 'ops': c[2][:6]})
-    exp, _, _ = run_history(*KNOWN_HISTORIES['F-C17-2'])
+    exp = run_history(*KNOWN_HISTORIES['F-C17-2'])[0]
     chk.sample({'history': history_line('T', *KNOWN_HISTORIES['F-C17-2']), 'real_and_model': exp})
-    chk.exhaustive = True
+    chk.exhaustive = chk.thorough      # the property text asks for all histories of length <= 5
 
 
 def replay(chk, obj):
     kind, init, ops = obj['class'], obj['init'], obj['ops']
     print('replay C17: class=%s init=%s' % (kind, json.dumps(init)))
-    exp, fail, done = run_history(kind, init, ops)
+    try:
+        exp, fail, done, _ = run_history(kind, init, ops)
+    except Exception as e:  # pylint: disable=broad-except
+        if not from_implementation(e):
+            raise
+        print('PROPERTY FAILS: the implementation raised %s: %s' % (type(e).__name__, e))
+        return 1
     parts = exp.split(' ; ')
     print('  constructed:', parts[0])
     for op, p in zip(ops, parts[1:]):
